@@ -34,9 +34,9 @@ MUTATORS = {"append", "extend", "update", "pop", "popitem", "clear", "insert", "
 def run(ctx):
     ctx.need_module(V)
     cls = ctx.need(f"{V}:VTKWriter")
-    d1(ctx, cls)
-    d2(ctx, cls)
-    d2_padding(ctx)
+    ctx.guard(d1, ctx, cls)
+    ctx.guard(d2, ctx, cls)
+    ctx.guard(d2_padding, ctx)
     ctx.trust("numpy shape semantics of zeros/tile/concatenate/vstack/hstack/reshape used by the writer (table in rules/C20.py)")
     ctx.assume("one element type per mesh; fields are admitted only through add_nodal_field / add_cell_field")
 
